@@ -14,7 +14,7 @@
      normalised v               v is not a Go int/int32/int64 or float *)
 From Coq Require Import String.
 From Coq Require Import List Permutation.
-From Formula Require Import Sem.Eval Proofs.BridgeFacts Proofs.ShowFacts.
+From Formula Require Import Sem.Eval Proofs.BridgeFacts Proofs.ShowFacts Gen.ImplBuiltins Tie.BuiltinsTie.
 
 (* ---------------- 1. called exactly once, or not at all ---------------- *)
 
@@ -402,6 +402,17 @@ Example to_string_param_examples :
   conv_to TString (VArr [VOpaque 1]) = Unk.
 Proof. exact ShowFacts.to_string_param_examples. Qed.
 
+(* "(or a builtin)": the builtins are called through the same bridge, with the signatures the model gives them -
+   and those are the signatures of the code: Gen/ImplBuiltins.v is the builtin table of the running library, read by
+   reflection on every run; every function in it has exactly the model's signature, and the model has no other name *)
+Theorem builtin_signature_is_the_code's : forall name sg,
+  In (name, sg) impl_builtin_sigs -> builtin_sig name = Some sg.
+Proof. exact BuiltinsTie.builtin_signature_is_the_code's. Qed.
+
+Theorem builtin_names_are_the_code's : forall n,
+  In n builtin_names -> exists n' sg, In (n', sg) impl_builtin_sigs /\ bytes_eqb n n' = true.
+Proof. exact BuiltinsTie.builtin_names_are_the_code's. Qed.
+
 Print Assumptions call_node_invokes_bridge_once.
 Print Assumptions args_left_to_right.
 Print Assumptions host_called_at_most_once.
@@ -453,3 +464,5 @@ Print Assumptions sort_ents_strict.
 Print Assumptions map_to_string_param_order_independent.
 Print Assumptions printable_to_string_param.
 Print Assumptions to_string_param_examples.
+Print Assumptions builtin_signature_is_the_code's.
+Print Assumptions builtin_names_are_the_code's.
